@@ -164,6 +164,61 @@ def case_fixtures(name):
     return {"name": name, "kind": "fixtures", "files": {"test_fx.incn": src}, "cmds": ["test"], "entry": "."}
 
 
+def stress_cases(n=64, chain=200):
+    """inputs that put MANY keys into every hash-iteration site, so that an order dependence shows
+    with high probability in a handful of processes"""
+    cases = []
+    names = ["k%02d" % i for i in range(n)]
+    # static-str const resolver (emit_program: static_str_const_exprs / cache) — a long chain
+    src = 'const C0: str = "c"\n' + "".join('const C%d: str = C%d + "-%d"\n' % (i, i - 1, i) for i in range(1, chain))
+    src += "\ndef main() -> None:\n    println(C%d)\n" % (chain - 1)
+    cases.append({"name": "st_consts", "kind": "stress", "files": {"main.incn": src}, "cmds": ["emit", "build", "emit-many"]})
+    # independent consts + a diamond (several consts built from the same ones)
+    src = "".join('const A%d: str = "a%d"\n' % (i, i) for i in range(n)) + "".join('const B%d: str = A%d + A%d\n' % (i, i, (i * 7 + 3) % n) for i in range(n))
+    src += "".join('const D%d: str = B%d + B%d\n' % (i, i, (i * 5 + 1) % n) for i in range(n)) + "\ndef main() -> None:\n    println(D0)\n"
+    cases.append({"name": "st_consts2", "kind": "stress", "files": {"main.incn": src}, "cmds": ["emit", "emit-many"]})
+    # constructor with n missing fields / n provided
+    src = "model Big:\n" + "".join("    %s: int\n" % f for f in names) + "\ndef main() -> None:\n    b = Big()\n    println(1)\n"
+    cases.append({"name": "st_ctor", "kind": "ctor", "files": {"main.incn": src}, "ty": "Big", "fields": [(f, False) for f in names], "provided": [],
+                  "cmds": ["check", "emit", "build"]})
+    src = "model Big:\n" + "".join("    %s: int\n" % f for f in names) + "\ndef main() -> None:\n    b = Big(%s)\n    println(b.k00)\n" % ", ".join("%s=1" % f for f in names)
+    cases.append({"name": "st_ctor_ok", "kind": "stress", "files": {"main.incn": src}, "cmds": ["check", "emit", "build", "emit-many"]})
+    # trait with n required methods: none implemented (model) / all implemented (class)
+    tr = "trait Wide:\n" + "".join("    def %s(self) -> int: ...\n" % m for m in names)
+    cases.append({"name": "st_trait", "kind": "trait", "tr": "Wide", "methods": [(m, 2) for m in names], "cmds": ["check", "emit"],
+                  "files": {"main.incn": tr + "\nmodel Sq with Wide:\n    s: int\n\ndef main() -> None:\n    println(1)\n"}})
+    impl = "".join("    def %s(self) -> int:\n        return 1\n" % m for m in names)
+    cases.append({"name": "st_trait_ok", "kind": "stress", "cmds": ["check", "emit", "build", "emit-many"],
+                  "files": {"main.incn": tr + "\nclass Sq with Wide:\n    s: int\n" + impl + "\ndef main() -> None:\n    println(1)\n"}})
+    # class inheritance: parent fields/methods merged into the child's maps
+    src = "class Base:\n" + "".join("    %s: int\n" % f for f in names[:32]) + "".join("    def g%s(self) -> int:\n        return self.%s\n" % (f, f) for f in names[:32])
+    src += "\nclass Child extends Base:\n    extra: int\n\ndef main() -> None:\n    println(1)\n"
+    cases.append({"name": "st_inherit", "kind": "stress", "files": {"main.incn": src}, "cmds": ["check", "emit", "emit-many"]})
+    # n modules in 8 directories, each with functions and rust imports (generate_nested, FunctionRegistry::merge, collect_rust_crates)
+    files, imports, calls = {}, [], []
+    for i in range(n):
+        pth = ["pkg%d" % (i % 8), "m%02d" % i]
+        files["/".join(pth) + ".incn"] = ("import rust::%s\n\n" % KNOWN_CRATES[i % len(KNOWN_CRATES)]) + "".join(
+            "pub def f%02d_%d() -> int:\n    return %d\n" % (i, j, j) for j in range(4))
+        imports.append("from %s import f%02d_0" % (".".join(pth), i))
+        calls.append("    println(f%02d_0())\n" % i)
+    files["main.incn"] = "\n".join(imports) + "\n\ndef main() -> None:\n" + "".join(calls)
+    cases.append({"name": "st_modules", "kind": "multi", "files": files, "paths": [["pkg%d" % (i % 8), "m%02d" % i] for i in range(n)],
+                  "cmds": ["check", "emit", "build", "collector", "emit-many"]})
+    # hint with n exports
+    util = "".join("pub def %s() -> int:\n    return 1\n" % m for m in names) + "def hidden() -> int:\n    return 4\n"
+    cases.append({"name": "st_hint", "kind": "hint", "exports": list(names), "cmds": ["check"],
+                  "files": {"util.incn": util, "main.incn": "from util import hidden\n\ndef main() -> None:\n    println(hidden())\n"}})
+    # n fixtures
+    src = "".join("@fixture(autouse=true)\ndef %s() -> int:\n    return 1\n\n" % f for f in names) + "def test_one() -> None:\n    assert 1 == 1\n"
+    cases.append({"name": "st_fixtures", "kind": "fixtures", "files": {"test_fx.incn": src}, "cmds": ["test"], "entry": "."})
+    # every known crate
+    src = "".join("import rust::%s\n" % c for c in KNOWN_CRATES) + "\n@derive(Serialize)\nmodel P:\n    x: int\n\nasync def f() -> int:\n    return 1\n\ndef main() -> None:\n    println(1)\n"
+    cases.append({"name": "st_crates", "kind": "crates", "files": {"main.incn": src}, "crates": list(KNOWN_CRATES), "serde": True, "tokio": True,
+                  "cmds": ["check", "emit", "build", "emit-many"]})
+    return cases
+
+
 def gen_cases(chk):
     rng = chk.rng
     big = chk.tier != "quick"
@@ -176,7 +231,7 @@ def gen_cases(chk):
         case_multi(rng, "mf1", [["util"]]),
         case_multi(rng, "mf5", [["db", "models"], ["db", "conn"], ["util"], ["svc", "api", "v1"], ["svc", "api", "v2"], ["svc", "core"], ["zeta"]]),
         case_fmt("fmt"), case_hint("hint"), case_fixtures("fx"),
-    ]
+    ] + stress_cases()
     if big:
         for i in range(12):
             cases.append(case_crates(rng, "crx%d" % i, rng.randint(0, 6), serde=rng.random() < .5, asyn=rng.random() < .5, unknown=rng.randint(0, 2)))
@@ -249,6 +304,8 @@ def job_args(case, cmd, rep=0):
         return [rel, out_rel], out_rel
     if cmd in ("fmt-diff", "fmt-check"):
         return [os.path.join("cases", case["name"])], None
+    if cmd == "emit-many":
+        return [rel, "12"], None
     return [rel], None
 
 
@@ -511,6 +568,13 @@ def run(chk):
                 dist["%s/%s" % (c["kind"], cmd)] = dist.get("%s/%s" % (c["kind"], cmd), 0) + 1
                 chk.count_case((c["name"], cmd, c["files"]), nontrivial=True)
                 chk.evaluations += runs - 1
+                if cmd == "emit-many":
+                    bad = [r for r in rs if "distinct outputs: 1\n" not in r["stdout"] + "\n"]
+                    if bad:
+                        fails.append({"case": c["name"], "command": cmd, "files": c["files"], "runs": runs,
+                                      "why": "generating the same program 12 times in one process gives different Rust: " + bad[0]["stdout"][:600],
+                                      "run_0": summarize(bad[0])})
+                        continue
                 if nd == 1:
                     continue
                 cls, why = classify(c, cmd, rs)
